@@ -59,6 +59,10 @@ impl HtmlFilterBodyAction {
         let mut data = self.last_buffer.clone();
         data.extend(input);
 
+        // A chunk can end in the middle of a multi-byte character: keep the incomplete
+        // sequence for the next chunk instead of failing on invalid UTF-8
+        let pending = data.split_off(data.len() - incomplete_utf8_suffix_len(&data));
+
         let mut tokenizer = html::Tokenizer::new(data);
         let mut to_return = "".to_string();
 
@@ -68,6 +72,7 @@ impl HtmlFilterBodyAction {
             if token_type == html::TokenType::ErrorToken {
                 self.last_buffer = tokenizer.raw();
                 self.last_buffer.extend(tokenizer.buffered());
+                self.last_buffer.extend_from_slice(&pending);
 
                 break;
             }
@@ -81,6 +86,7 @@ impl HtmlFilterBodyAction {
                     self.last_buffer = token_data.into_bytes();
                     self.last_buffer.extend(tokenizer.raw());
                     self.last_buffer.extend(tokenizer.buffered());
+                    self.last_buffer.extend_from_slice(&pending);
 
                     return Ok(to_return.into_bytes());
                 }
@@ -233,6 +239,33 @@ impl HtmlFilterBodyAction {
 
         Ok((self.current_buffer.take(), buffer))
     }
+}
+
+/// Length of the incomplete UTF-8 sequence at the end of `data` (0 when it ends on a character boundary)
+fn incomplete_utf8_suffix_len(data: &[u8]) -> usize {
+    let len = data.len();
+
+    for back in 1..=len.min(3) {
+        let byte = data[len - back];
+
+        if byte & 0xC0 == 0x80 {
+            continue;
+        }
+
+        let needed = if byte >= 0xF0 {
+            4
+        } else if byte >= 0xE0 {
+            3
+        } else if byte >= 0xC0 {
+            2
+        } else {
+            1
+        };
+
+        return if needed > back { back } else { 0 };
+    }
+
+    0
 }
 
 #[cfg(feature = "verif")]
